@@ -319,7 +319,7 @@ pub fn corr(dir: &str, seed: u64, tier: &str) -> Report {
 // ------------------------------------------------------------------ oracle
 pub fn oracle(c: &Corpus, _seed: u64, tier: &str) -> Vec<Report> {
     let sch = reflect::load_schema();
-    let mut r = Report::new("C16", "oracle.visit-laws", "every distinct statement tree of the parsed corpus plus AST-first generated statements (random documents of the schema through Deserialize, every Statement variant), real code only: callbacks well nested; each post gets the node (address and Display) of its pre; pre addresses distinct per kind; number of pre_expr/statement/query/table_factor callbacks = number of nodes of that type in the serde-reflected tree; Visit and VisitMut deliver the same sequence; identity VisitMut leaves the tree ==; Break at k delivers exactly k+1 callbacks (k = 0, 1, middle, last; thorough: all k up to 64); non-trivial = distinct callback sequences");
+    let mut r = Report::new("C16", "oracle.visit-laws", "every distinct statement tree of the parsed corpus plus AST-first generated statements (random documents of the schema through Deserialize, every Statement variant), real code only: callbacks well nested; each post gets the node (address and Display) of its pre; pre addresses distinct per kind; number of pre_expr/statement/query/table_factor callbacks = number of nodes of that type in the serde-reflected tree; Visit and VisitMut deliver the same sequence; identity VisitMut leaves the tree ==; a REWRITING VisitMut (pre hook strips Expr::Nested, a variant change) gets balanced pre/post callbacks and leaves no Nested behind (the walk continues inside the replacement); Break at k delivers exactly k+1 callbacks (k = 0, 1, middle, last; thorough: all k up to 64); non-trivial = distinct callback sequences");
     let mut r2 = Report::new("C16", "oracle.relation-coverage", "every ObjectName in a FROM/JOIN (TableFactor::Table), INSERT, DELETE-target (each element of Delete.tables), TRUNCATE, COPY FROM / COPY INTO target position or in one of the statement kinds hooked today, found by pattern matching on the real AST (independent of the visit attributes), must be reported by pre_visit_relation (compared by address), the elements of a Vec position in the order of the Vec; non-trivial = distinct (position, statement variant)");
     r.exhaustive = true;
     r2.exhaustive = true;
@@ -338,6 +338,11 @@ pub fn oracle(c: &Corpus, _seed: u64, tier: &str) -> Vec<Report> {
     for case in &all {
         let (dn, s, st) = (case.dialect, &case.sql, &case.st);
         r.evaluations += 1;
+        match guard(|| rewrite_laws(st)) {
+            G::Val(None) => {}
+            G::Val(Some(e)) => r.fail("rewriting-visitor".into(), dn, Opts::DEFAULT, s, e),
+            G::Panic(m) => r.panic(dn, Opts::DEFAULT, s, format!("rewriting visitor: {m}")),
+        }
         let res = guard(|| {
             let (b, rec) = walk_ro(st, None, true, true);
             let mut copy = st.clone();
@@ -461,4 +466,56 @@ pub fn oracle(c: &Corpus, _seed: u64, tier: &str) -> Vec<Report> {
     r.distinct_nontrivial = distinct.len() as u64;
     r2.distinct_nontrivial = d2.len() as u64;
     vec![r, r2]
+}
+
+// ---------------------------------------------------------------- rewriting visitors
+/// A `VisitorMut` that REPLACES nodes from its pre hooks (variant changes): `(e)` by `e`
+/// (`Expr::Nested` stripped, repeatedly), and counts its callbacks.  The walk must continue inside the
+/// replacement: afterwards no `Expr::Nested` may be left anywhere the expression hooks reach, and pre
+/// and post callbacks must be balanced per family.
+#[derive(Default)]
+struct StripNested { pre_e: usize, post_e: usize, pre_q: usize, post_q: usize, pre_s: usize, post_s: usize, pre_t: usize, post_t: usize }
+impl VisitorMut for StripNested {
+    type Break = ();
+    fn pre_visit_expr(&mut self, e: &mut sqlparser::ast::Expr) -> ControlFlow<()> {
+        self.pre_e += 1;
+        while let sqlparser::ast::Expr::Nested(inner) = e {
+            let taken = std::mem::replace(inner.as_mut(), sqlparser::ast::Expr::Wildcard);
+            *e = taken;
+        }
+        ControlFlow::Continue(())
+    }
+    fn post_visit_expr(&mut self, _e: &mut sqlparser::ast::Expr) -> ControlFlow<()> { self.post_e += 1; ControlFlow::Continue(()) }
+    fn pre_visit_query(&mut self, _q: &mut sqlparser::ast::Query) -> ControlFlow<()> { self.pre_q += 1; ControlFlow::Continue(()) }
+    fn post_visit_query(&mut self, _q: &mut sqlparser::ast::Query) -> ControlFlow<()> { self.post_q += 1; ControlFlow::Continue(()) }
+    fn pre_visit_statement(&mut self, _s: &mut Statement) -> ControlFlow<()> { self.pre_s += 1; ControlFlow::Continue(()) }
+    fn post_visit_statement(&mut self, _s: &mut Statement) -> ControlFlow<()> { self.post_s += 1; ControlFlow::Continue(()) }
+    fn pre_visit_table_factor(&mut self, _t: &mut sqlparser::ast::TableFactor) -> ControlFlow<()> { self.pre_t += 1; ControlFlow::Continue(()) }
+    fn post_visit_table_factor(&mut self, _t: &mut sqlparser::ast::TableFactor) -> ControlFlow<()> { self.post_t += 1; ControlFlow::Continue(()) }
+}
+#[derive(Default)]
+struct CountNested(usize);
+impl Visitor for CountNested {
+    type Break = ();
+    fn pre_visit_expr(&mut self, e: &sqlparser::ast::Expr) -> ControlFlow<()> {
+        if matches!(e, sqlparser::ast::Expr::Nested(_)) { self.0 += 1; }
+        ControlFlow::Continue(())
+    }
+}
+/// `None` = all laws hold
+fn rewrite_laws(st: &Statement) -> Option<String> {
+    let mut before = CountNested::default();
+    let _ = st.visit(&mut before);
+    let mut copy = st.clone();
+    let mut v = StripNested::default();
+    let _ = VisitMut::visit(&mut copy, &mut v);
+    if v.pre_e != v.post_e || v.pre_q != v.post_q || v.pre_s != v.post_s || v.pre_t != v.post_t {
+        return Some(format!("unbalanced callbacks of a rewriting visitor: expr {}/{} query {}/{} statement {}/{} table_factor {}/{}", v.pre_e, v.post_e, v.pre_q, v.post_q, v.pre_s, v.post_s, v.pre_t, v.post_t));
+    }
+    let mut after = CountNested::default();
+    let _ = copy.visit(&mut after);
+    if after.0 != 0 {
+        return Some(format!("{} of {} Expr::Nested nodes survive a pre-hook that strips them: the walk did not continue inside the replacement", after.0, before.0));
+    }
+    None
 }
